@@ -72,6 +72,8 @@ class Poisson(DiscreteRandomVariable):
         return math.exp(-self.mu) * sum(self.mu**j / factorial(j) for j in range(x+1))
 
     def pmf(self, x):
+        if x < 0:
+            return 0
         return self.mu**x * math.exp(-self.mu) / factorial(x)
 
     def mean(self):
